@@ -58,7 +58,10 @@ HOSTILE_TEXT = ('1e3', 'TRUE', 'false', 'null', '~', 'a: b', '- x', '{a: 1}', '[
 # not in the pool: 'NaN', 'inf', '.inf' - pycel's number coercion turns such text into float
 # nan/inf (operator semantics, C10, not claimed) and the original model itself then raises
 HOSTILE_NUM = (1e-7, 1e22, -0.0, 0.1 + 0.2, 123456789012345678, 1e-300, 2 ** 53 + 1.0, -1e-5,
-               1.0, 100.0, 0.30000000000000004, 5e-324, 1.7976931348623157e308, 1e16, 12345678.9)
+               1.0, 100.0, 0.30000000000000004, 1e16, 12345678.9, 2.057729175256282e-05,
+               1.234e-07, 6.02214076e23)
+# not in the pool: 5e-324 and 1.8e308 - one division or product away from inf, which pycel's
+# operators cannot handle (C10, not claimed)
 FORMULA_TEXT = ('=1+1', '=A1', '=SUM(A1:A2)', '=', '=x')
 
 
@@ -112,6 +115,8 @@ def gen_case(rnd, tier, index):
             for c in spec['cells']:
                 if 'v' in c and c['a'] not in spec.get('pinned', ()) and rnd.random() < 0.5:
                     c['v'] = hostile_value(rnd)
+                    if c['v'] == '':
+                        c['v'] = None     # an xlsx file cannot hold an empty text constant
     dag = wbgen.Dag(spec)
     if rnd.random() < 0.3:
         cfg['extra_data'] = rnd.choice((
